@@ -151,3 +151,66 @@ def default_value(node, defs, default):
                 out[f["name"]] = default_value(f["type"], defs, default[f["name"]])
         return out
     return default
+
+
+def to_schema(node, defs, field_filter=None, record_hook=None):
+    """A JSON schema again from a resolved tree: full names spelled in "name", every definition at its first use and by
+    (full) name afterwards.  field_filter(record_full_name, field_index, field) -> bool drops fields; record_hook(full_name,
+    schema_dict) may edit a record definition after it is built.  (Both kinds of record come back as "record".)"""
+    emitted = set()
+
+    def emit(n):
+        k = n["k"]
+        if k == "ref":
+            if n["name"] in emitted:
+                return n["name"]
+            return emit(defs[n["name"]])
+        if k == "union":
+            return [emit(b) for b in n["branches"]]
+        if k == "array":
+            return {"type": "array", "items": emit(n["items"])}
+        if k == "map":
+            return {"type": "map", "values": emit(n["values"])}
+        if k in ("record", "enum", "fixed"):
+            if n["name"] in emitted:
+                return n["name"]
+            emitted.add(n["name"])
+            d = {"type": k, "name": n["name"]}
+            if n.get("aliases"):
+                d["aliases"] = list(n["aliases"])
+            if k == "enum":
+                d["symbols"] = list(n["symbols"])
+                if "default" in n:
+                    d["default"] = n["default"]
+            elif k == "fixed":
+                d["size"] = n["size"]
+            else:
+                fs = []
+                for i, f in enumerate(n["fields"]):
+                    if field_filter is not None and not field_filter(n["name"], i, f):
+                        continue
+                    fd = {"name": f["name"], "type": emit(f["type"])}
+                    if f.get("aliases"):
+                        fd["aliases"] = list(f["aliases"])
+                    if "default" in f:
+                        fd["default"] = f["default"]
+                    fs.append(fd)
+                d["fields"] = fs
+                if record_hook is not None:
+                    record_hook(n["name"], d)
+            if "logical" in n:
+                d["logicalType"] = n["logical"]
+                for a in ("precision", "scale"):
+                    if a in n:
+                        d[a] = n[a]
+            return d
+        d = {"type": k}
+        if "logical" in n:
+            d["logicalType"] = n["logical"]
+            for a in ("precision", "scale"):
+                if a in n:
+                    d[a] = n[a]
+            return d
+        return k
+
+    return emit(node)
